@@ -14,7 +14,7 @@ CLAIMED = {
    note="Not decided: the converse direction as a postcondition (authority and authorizer facts are visible in every block world: follows from World.Clone's same_facts but is not stated on Authorize), and identity of outcomes with/without a block's facts (a relational statement over two runs: outside one-call contracts).",
    technique=T, ref="4/C03"),
  "C04": dict(
-   text="Proof (partial): Authorize is under contract with invariants for all 14 loops; proved: a nil result requires a matched allow policy (err == nil ==> some policy of kind allow exists and the policy loop set the verdict from the first matching policy), a failing or limited run is returned as the error, a nil result implies the fact count is below the limit, and check failure takes precedence: every return statement that hands out the policy verdict (the first matching policy's result, or 'no matching policy') is proved to be reached only when no check has failed and one block world per block has been evaluated, wherever such a return stands in the function.",
+   text="Proof (partial): Authorize is under contract with invariants for all 14 loops; proved: a nil result requires a matched allow policy (err == nil ==> some policy of kind allow exists and the policy loop set the verdict from the first matching policy), a failing or limited run is returned as the error, a nil result implies the fact count is below the limit, and check failure takes precedence: every return statement that hands out the policy verdict (the first matching policy's result, or 'no matching policy') is proved to be reached only when no check has failed and one block world per block has been evaluated, wherever such a return stands in the function; and every check is evaluated by running its queries every time (structural clauses on the control-flow graph: each completed iteration of a check loop passes through its query loop, each block's iteration through that block's check loop).",
    note="Not decided: the full decision procedure as a postcondition (every check has a satisfied query in its scope <=> no check error): it needs a specification-level definition of 'query satisfied in scope', i.e. the Datalog semantics of C05, which is not available as a contract. Error message contents are not specified.",
    technique=T, ref="4/C04"),
  "C05": dict(
@@ -50,7 +50,7 @@ CLAIMED = {
    note="LoadPolicies/loadPoliciesV2, SerializePolicies and PrintWorld are under contract and proved not to write the base snapshot. The AddBlock/AddAuthorizer convenience wrappers are under contract too (they keep the authorizer invariant and the base snapshot). 'behaves exactly like a new authorizer' is decided as state equality of what Reset installs with what the constructor installs (both are clones of the same base state), not as a relational statement over runs.",
    technique=T, ref="4/C13"),
  "C14": dict(
-   text="Proof (partial) for the conversion layer between participle's syntax tree and the values the library works with: Term.ToBiscuit row by row (integer, string, variable, bool, set without variables, parameter substituted or 'unbound parameter' error, value or error never both), the operator spelling table (text of the operator token -> operator constant, 19 rows proved from the map literal, which is checked to be a constant table), the operator table at each precedence level (every level appends exactly its own operators: || ; && ; comparisons ; + - ; * / ; methods), negation and parentheses appended after their operand (postfix order of each node), 'or' as alternative queries (one rule per alternative), allow/deny kinds, 'query' heads, facts without variables, every flattened expression checked for unconverted operands (the repaired defect), and panic freedom of all functions of the layer, of participle's capture hooks (Comment, Variable, Parameter, Bool, Operator) and of the twelve entry points (with and without parameters).",
+   text="Proof (partial) for the conversion layer between participle's syntax tree and the values the library works with: Term.ToBiscuit row by row (integer, string, variable, bool, set without variables, parameter substituted or 'unbound parameter' error, value or error never both), the date row (a date literal is accepted exactly when time.Parse accepts it under the RFC 3339 layout - ghost predicate on the assumed contract of time.Parse) and the bytes row, the operator spelling table (text of the operator token -> operator constant, 19 rows proved from the map literal, which is checked to be a constant table), the operator table at each precedence level (every level appends exactly its own operators: || ; && ; comparisons ; + - ; * / ; methods), negation and parentheses appended after their operand (postfix order of each node), 'or' as alternative queries (one rule per alternative), allow/deny kinds, 'query' heads, facts without variables, every flattened expression checked for unconverted operands (the repaired defect), and panic freedom of all functions of the layer, of participle's capture hooks (Comment, Variable, Parameter, Bool, Operator) and of the twelve entry points (with and without parameters).",
    note="Assumed, not proved: participle itself - lexing (including the token table of regular expressions handed to it; the thorough tier cross-checks a corpus of spellings and layouts on the real parser), the grammar's precedence and associativity as encoded in the struct tags, and the shape of the tree it returns (required captures and elements of repeated captures are non-nil: 'assumes' clauses and the extern contract of ParseString). So 'denotes exactly the documented grammar' is decided only from the tree downwards; the postfix order of a whole expression is decided per node (each node appends its operands' output then its own operator), not as one statement over the flattened sequence.",
    technique=T, ref="4/C14"),
  "C16": dict(
